@@ -202,6 +202,11 @@ def valueFormat2 (t : SinglePos2) : Nat :=
   | [] => 0
   | r :: _ => format r
 
+/-- generated `impl Validate for SinglePosFormat2` (`array exceeds max length`) + hand-written
+`SinglePosFormat2::check_format_consistency` (every record has the format stored in the subtable) -/
+def validateSP2 (t : SinglePos2) : Bool :=
+  decide (t.records.length ≤ 65535) && t.records.all (fun r => format r == valueFormat2 t)
+
 /-- `none` = the `u16::try_from(..).unwrap()` panic -/
 def writeSP2 (t : SinglePos2) : Option Bytes :=
   if t.records.length < 65536 then
